@@ -1,5 +1,5 @@
 #!/usr/bin/env python3
-"""mkround.py <round-number> : prepare a seeding round: one scratch git worktree of /repo HEAD per property under /tmp/wt<round>/<id>, each with a TASK.txt
+"""mkround.py <round-number> [<prop> ...] : prepare a seeding round: one scratch git worktree of /repo HEAD per property under /tmp/wt<round>/<id>, each with a TASK.txt
 that holds the property text, short summaries of the changes earlier volunteers made for it (from seeded/<id>*/meta.json) and the deliverables.
 The sub-agents get nothing from /verif. Afterwards: tools/seedcheck.sh, tools/seedkeep.py, tools/seedtest.sh (see DESIGN.md section 6)."""
 import json, os, subprocess, sys, glob
@@ -28,6 +28,7 @@ Verify the demo in both directions yourself (the original headers are available 
 os.makedirs(base, exist_ok=True)
 for l in open(os.path.join(V, 'properties.jsonl')):
     p = json.loads(l); pid = p['id']; wt = '%s/%s' % (base, pid)
+    if len(sys.argv) > 2 and pid not in sys.argv[2:]: continue
     prev = []
     for d in sorted(glob.glob(os.path.join(V, 'seeded', pid + '*'))):
         if not os.path.isdir(d) or not os.path.exists(d + '/meta.json'): continue
